@@ -1861,6 +1861,33 @@ fn c09_long_nodes<K: Kmer + Send + Sync>(c: &mut Case) -> Result<(), String> {
     Ok(())
 }
 
+/// one-k-mer-per-node chain of 2^17 .. 3*10^5 nodes, nodes in chain order (the first seed sits at an
+/// end, so one walk direction covers the whole chain): must come back as ONE node spelling the sequence
+fn c09_long_chain(c: &mut Case) -> Result<(), String> {
+    type K = Kmer32;
+    let k = 32;
+    let n_nodes = *c.rng.pick(&[131_071usize, 131_072, 131_073, 140_000, 262_145, 300_000]);
+    let s = c.rng.bases(n_nodes + k - 1, 4);
+    let mut b: BaseGraph<K, Pay> = BaseGraph::new(true);
+    for i in 0..n_nodes {
+        let mut e = 0u8;
+        if i > 0 { e |= bit(L, s[i - 1]); }
+        if i + k < s.len() { e |= bit(R, s[i + k]); }
+        b.add(&s[i..i + k], Exts::new(e), Pay { colour: 0, ids: vec![i as u32] });
+    }
+    // (random 32-mers: a repeated k-mer has probability ~ n^2 / 4^32, i.e. none)
+    let out = compress_graph(true, &SpySpec::new(false), b.finish(), None);
+    ensure!(out.len() == 1, "a chain of {} one-k-mer nodes is compressed into {} nodes instead of 1 (sizes {:?})", n_nodes, out.len(), (0..out.len().min(4)).map(|i| out.get_node(i).len()).collect::<Vec<_>>());
+    ensure!(out.get_node(0).sequence().bytes() == s, "the node compressed from a chain of {} one-k-mer nodes does not spell the sequence", n_nodes);
+    ensure!(out.get_node(0).exts().val == 0, "compressed chain has extensions {:#04x}", out.get_node(0).exts().val);
+    let mut ids = out.get_node(0).data().ids.clone();
+    ids.sort();
+    ensure!(ids.len() == n_nodes && ids.iter().enumerate().all(|(i, x)| *x == i as u32), "payload of the compressed chain is not every node id once");
+    c.count("long_chains", 1);
+    c.nontrivial(H::new().u(n_nodes as u64).u(c.idx).get());
+    Ok(())
+}
+
 pub fn run_c09(ctx: &Ctx) {
     let n = ctx.n(30_000, 1_500_000);
     ctx.run_group("recompress", n, false, |c| {
@@ -1875,6 +1902,11 @@ pub fn run_c09(ctx: &Ctx) {
         });
         ctx.require("long_nodes_of_4096_or_more_bases", 100);
         ctx.require("predicate_switch_recompressions", 1000);
+    }
+    if !ctx.is_miri() && ctx.lane == "release" {
+        ctx.set_case_timeout(900);
+        ctx.run_group_t("long_chain", ctx.n(3, 12), false, 3, |c| c09_long_chain(c));
+        ctx.require("long_chains", 3);
     }
     if !ctx.is_miri() && ctx.lane != "asan" {
         ctx.set_case_timeout(900);
